@@ -640,3 +640,75 @@ func H14_second_lap() {
 	}
 	vrtReach("C14.second_lap")
 }
+
+// H14b_blocked_readfrom: the socket-to-ring pump (ReadFrom) on a ring that is completely full, or has one
+// byte or one byte less than a read block free, while the consumer then takes the unread bytes out in
+// pieces. Whenever the pump hands a slice to the socket reader, that slice lies in room that is free at
+// that moment; the consumer gets the old bytes and then the new ones, in order, none changed (round-8
+// change C14-16: a pump that waits for one free byte instead of a whole block took a completely full
+// ring for an empty one and let the reader overwrite unread bytes). How much room the pump waits for is
+// its own business: nothing here depends on it.
+func H14b_blocked_readfrom() {
+	bf, err := newBuffer(1)
+	if err != nil {
+		panic(err)
+	}
+	var c int64
+	switch vrtChoice("pos", 3) {
+	case 1:
+		c = bf.size - 5
+	case 2:
+		c = 3*bf.size + 9000
+	}
+	free := []int64{0, 1, defaultReadBlockSize - 1}[vrtChoice("free", 3)]
+	unread := bf.size - free
+	bf.cseq.set(c)
+	bf.pseq.set(c + unread)
+	bf.pseq.gate = c
+	old := make([]byte, unread)
+	for i := range old {
+		old[i] = byte(i*7 + 1)
+	}
+	old[0], old[1] = vrtByte("s0"), vrtByte("s1")
+	for i := range old {
+		bf.buf[(c+int64(i))&bf.mask] = old[i]
+	}
+	fresh := []byte{vrtByte("x0"), vrtByte("x1"), vrtByte("x2")}
+	rd := &vrtChunkReader{data: fresh, bf: bf}
+	var perr error
+	vrtGo(func() {
+		_, perr = bf.ReadFrom(rd)
+		if perr == io.EOF {
+			perr = nil
+		}
+	})
+	vrtQuiesce()
+	// the consumer takes everything out: first two single bytes, then blocks
+	var got []byte
+	want := append(append([]byte(nil), old...), fresh...)
+	for len(got) < len(want) {
+		n := 4096
+		if len(got) < 2 {
+			n = 1
+		}
+		if rest := len(want) - len(got); n > rest {
+			n = rest
+		}
+		b := make([]byte, n)
+		k, rerr := bf.Read(b)
+		vrtAssert("C14.read_ok", rerr == nil && k >= 1)
+		if rerr != nil || k < 1 {
+			return
+		}
+		got = append(got, b[:k]...)
+		vrtQuiesce()
+	}
+	vrtJoin()
+	vrtAssert("C14.producer_done", perr == nil)
+	ok := true
+	for i := range want {
+		ok = vrtAnd(ok, got[i] == want[i])
+	}
+	vrtAssert("C14.consumer_stream_is_producer_stream", ok)
+	vrtReach("C14.blocked_readfrom")
+}
